@@ -8,7 +8,7 @@ mkdir -p $DST
 cp $SRC/patch.diff $SRC/meta.json $DST/ 2>/dev/null
 cp $SRC/demo_test.go $DST/demo_test.go 2>/dev/null || cp $SRC/*_test.go $DST/demo_test.go
 cd /verif
-./selftest $ID $DST/patch.diff > /tmp/ingest-$NAME.out 2>&1
+./selftest $ID $DST/patch.diff ${SELFTEST_ARGS:-} > /tmp/ingest-$NAME.out 2>&1
 RES=$(tail -1 /tmp/ingest-$NAME.out)
 SIGS=$(grep -h "signature:" /tmp/ingest-$NAME.out | sed 's/^ *signature: //; s/ (cases=.*//' | head -4 | paste -sd'|')
 python3 - "$DST/meta.json" "$RES" "$SIGS" <<'PY'
